@@ -69,6 +69,13 @@ def polynomial_from_attributes(
         polynomial(0)
 
     """
+    if dtype is None and len(coefficients):
+        # the common dtype of everything passed: taking the one of the first
+        # coefficient that survives the cleaning truncates the others and
+        # makes the result depend on the `retain_coefficients` option.
+        dtype = numpy.result_type(
+            *[numpy.asarray(coefficient) for coefficient in coefficients]
+        )
     exponents, coefficients, names = clean.postprocess_attributes(
         exponents=exponents,
         coefficients=coefficients,
